@@ -325,11 +325,13 @@ package node
 // Entry points: a statement compiled for its value leaves exactly one PUSH when its result is not
 // already on the stack; compiled for effect, one POP when it is.
 //@ func ByteCode [C05,C12]
+//@   requires[resolved;C16,C04] rewritten(bc)
 //@   requires[ast] wfAST(bc)
 //@   requires[cr]  crOK(cr)
 //@   modifies *cr.CS, allelems(*cr.CS), *cr.DS, allelems(*cr.DS), mapof(*cr.Dbg)
 //@   ensures[K2_code] csKept(cr) && csNewWF(cr) && dsKept(cr) && crOK(cr)
 //@ func ByteCodeNoStck [C05,C12]
+//@   requires[resolved;C16,C04] rewritten(bc)
 //@   requires[ast] wfAST(bc)
 //@   requires[cr]  crOK(cr)
 //@   modifies *cr.CS, allelems(*cr.CS), *cr.DS, allelems(*cr.DS), mapof(*cr.Dbg)
@@ -347,6 +349,23 @@ package node
 //@       dyntype(result) == typeid[Closure]() && result.(Closure).Ix == symTbl[len(symTbl)-2][string(n)] && result.(Closure).VarName == string(n)
 //@   ensures[global;C04] (len(symTbl) < 1 || !mapdom(symTbl[len(symTbl)-1], string(n))) && (len(symTbl) < 2 || !mapdom(symTbl[len(symTbl)-2], string(n))) ==>
 //@       dyntype(result) == typeid[Name]() && result.(Name) == n
+//
+// ---- every run mode resolves names before it compiles (C16, C04) ------------------------------------
+// rewritten(n): n is the result of STRewrite (parameters, locals and captured variables are slots, not
+// global names). The compiler entry points demand it; processInput and cmd/calc's -eval branch are
+// checked against that demand. (builtin.Load compiles hand-built trees and is not checked.)
+//@ ghost rewritten(n ByteCoder) bool
+//@ type STRewriter.STRewrite [C16,C04] trusted
+//@   params self, symTbl
+//@   allocates
+//@   ensures[resolved] rewritten(result)
+//@ type Parser.Parse [C16] trusted pure
+//@   params self, input
+//@ func Graphviz [C16] trusted pure
+//@ func processInput [C16,C04]
+//@   checks
+//@   modifies *
+//@   loop 0 invariant true
 //
 // ---- script files (C16) ----------------------------------------------------------------------------
 // Loop stops at the first read error and discards what came with it, so a reader must never report an
